@@ -67,9 +67,12 @@ def sym_managers(ctx, p, n_topics=1, n_subs=1):
             p.assume(z3.Implies(z3.And(subs[i][0], subs[j][0]),
                                 z3.Or(U['sub_proj'](subs[i][1]) != U['sub_proj'](subs[j][1]),
                                       U['sub_id'](subs[i][1]) != U['sub_id'](subs[j][1]))))
-    tstate = Cell(mk(ctx, 'State', 'topics/topic_manager', topics=tmap, next_id=S(p.fresh('t_next_id'), 'u32')), 'tstate')
-    sstate = Cell(mk(ctx, 'State', 'subscriptions/subscription_manager', subscriptions=smap, next_id=S(p.fresh('s_next_id'), 'u32')), 'sstate')
-    p.assume(z3.And(tstate.v.fields[1].t >= 1, tstate.v.fields[1].t < (1 << 31), sstate.v.fields[1].t >= 1, sstate.v.fields[1].t < (1 << 31)))
+    tstate = Cell(mk_opt(ctx, 'State', 'topics/topic_manager', topics=tmap, next_id=S(p.fresh('t_next_id'), 'u32')), 'tstate')
+    sstate = Cell(mk_opt(ctx, 'State', 'subscriptions/subscription_manager', subscriptions=smap, next_id=S(p.fresh('s_next_id'), 'u32')), 'sstate')
+    for stv in (tstate.v, sstate.v):
+        for f in stv.fields:
+            if isinstance(f, S):
+                p.assume(z3.And(f.t >= 1, f.t < (1 << 31)))
     tm = ArcCell(Cell(mk(ctx, 'TopicManager', state=ArcCell(Cell(LockM('topic_manager.state', tstate)))), 'tm'))
     sm = ArcCell(Cell(mk(ctx, 'SubscriptionManager', state=ArcCell(Cell(LockM('subscription_manager.state', sstate))),
                          push_registry=Opaque('push_registry')), 'sm'))
